@@ -450,6 +450,12 @@ func Run(c *hx.Ctx) error {
 		e.authzOps(c, stmts)
 	}
 
+	// every combination of the registration switches: the live mux equals the extracted table filtered by routeLive
+	for i := 0; i < 16; i++ {
+		cfg := cfgSpec{logKeeper: i&8 != 0, flux: i&4 != 0, pprof: i&2 != 0, ext: i&1 != 0}
+		newEnv(baseWorld("s3cret"), cfg, false).routesOp(c)
+	}
+
 	// parameter placement: URL vs body, duplicated and conflicting; the database acted on
 	paramOps(c, thorough)
 
@@ -483,6 +489,11 @@ func Run(c *hx.Ctx) error {
 		emitWorld(c, w)
 		for _, cc := range credCases(w) {
 			e.authOp(c, cc.c, cc.class)
+			e.mauthOp(c, cc.c, cc.class)
+		}
+		for _, cr := range jwtCases(w) {
+			e.authOp(c, cr, "jwt")
+			e.mauthOp(c, cr, "jwt")
 		}
 		n := 300
 		if thorough {
@@ -504,6 +515,9 @@ func Run(c *hx.Ctx) error {
 		}
 		e.grantRevoke(c, rng, steps, stmts)
 	}
+	// the password cache across password changes; the zero-user bootstrap
+	cacheOps(c, rng, thorough)
+	bootOps(c, stmts)
 	if thorough && c.Arg("blackbox", "1") != "0" {
 		bbEnv := newEnv(baseWorld(""), cfgSpec{pprof: true, ext: true}, false)
 		if err := blackbox(c, bbEnv.liveRoutes()); err != nil {
